@@ -340,6 +340,9 @@ class Pipeline:
         """
         output_to_func: dict[OUTPUT_TYPE, PipeFunc] = {}
         for f in self.functions:
+            # The names were unique when the functions were added, but a function
+            # might have been renamed since (`PipeFunc.update_renames`).
+            validate_unique_output_names(f.output_name, output_to_func)
             output_to_func[f.output_name] = f
             if isinstance(f.output_name, tuple):
                 for name in f.output_name:
